@@ -168,6 +168,9 @@ def check(ctx):
         rec = it2.to_nf(calls[0].data["args"]["saturations"])
         ctx.check(it2.to_nf(calls[0].data["args"]["params"]) == nf.sym("params"), "C14-d", q2 + ":params forwarded", f2.where(), "the caller's parameter set is forwarded unchanged", signature="params")
         break
+    from .common import check_errstate
+
+    check_errstate(ctx, "C14-e", ["bluebonnet.flow.flowproperties"])
     ctx.floor("C14", len(ctx.obligs), 20, "relative-permeability obligations")
 
 
